@@ -123,6 +123,69 @@ class Variant:
                 m[o] = s
         return m
 
+    def rule_name(self, i):
+        return getattr(self.stmts[i], "rule_name", None) or "r%d" % i
+
+    def _rule_lines(self, i, s, by_out):
+        lines = ["rule " + self.rule_name(i), "  command = " + command_of(s, by_out)]
+        if s.desc:
+            lines.append("  description = " + s.desc)
+        if s.depfile:
+            d = getattr(s, "depfile_dir", None)
+            # written with $out, as build generators do: the path is evaluated by ninja
+            lines.append("  depfile = %s$out.d" % (d + "/" if d else "") if len(s.outs) == 1 and d else
+                         "  depfile = %s.d" % esc_path(s.id))
+        if s.deps:
+            lines.append("  deps = " + s.deps)
+        if s.restat:
+            lines.append("  restat = 1")
+        if s.generator:
+            lines.append("  generator = 1")
+        if s.rsp:
+            lines.append("  rspfile = " + s.rsp[0])
+            # a literally empty value is rejected by the parser; an empty *evaluated* content is legal
+            lines.append("  rspfile_content = " + (s.rsp[1] if s.rsp[1] else "$rsp_nothing"))
+        return lines
+
+    def _build_lines(self, i, s):
+        sp = self.spell
+
+        def spath(x):
+            return esc_path(sp.get(x, x))
+        l = "build " + " ".join(spath(o) for o in s.outs)
+        if s.iouts:
+            l += " | " + " ".join(spath(o) for o in s.iouts)
+        l += ": " + ("phony" if s.phony else self.rule_name(i))
+        if s.ex:
+            l += " " + " ".join(spath(x) for x in s.ex)
+        if s.im:
+            l += " | " + " ".join(spath(x) for x in s.im)
+        if s.oo:
+            l += " || " + " ".join(spath(x) for x in s.oo)
+        if s.val:
+            l += " |@ " + " ".join(spath(x) for x in s.val)
+        lines = [l]
+        if s.pool:
+            lines.append("  pool = " + s.pool)
+        if s.dyndep:
+            lines.append("  dyndep = " + s.dyndep)
+        return lines
+
+    def scoped_files(self):
+        """Statements with a `scope` attribute (a file name) live, with their rules, in that subninja file: a scope of
+        its own, in which a rule may carry the name of a rule of the including file."""
+        by_out = self.by_out()
+        out = {}
+        for i, s in enumerate(self.stmts):
+            f = getattr(s, "scope", None)
+            if not f:
+                continue
+            lines = out.setdefault(f, ["# scope %s of variant %s" % (f, self.name)])
+            if not s.phony:
+                lines += self._rule_lines(i, s, by_out)
+            lines += self._build_lines(i, s)
+        return dict((f, "\n".join(l) + "\n") for f, l in out.items())
+
     def manifest(self):
         by_out = self.by_out()
         lines = ["# variant %s" % self.name]
@@ -131,49 +194,19 @@ class Variant:
         for name, depth in sorted(self.pools.items()):
             lines += ["pool %s" % name, "  depth = %d" % depth]
         for i, s in enumerate(self.stmts):
-            if s.phony:
+            if s.phony or getattr(s, "scope", None):
                 continue
-            lines.append("rule r%d" % i)
-            lines.append("  command = " + command_of(s, by_out))
-            if s.desc:
-                lines.append("  description = " + s.desc)
-            if s.depfile:
-                d = getattr(s, "depfile_dir", None)
-                # written with $out, as build generators do: the path is evaluated by ninja
-                lines.append("  depfile = %s$out.d" % (d + "/" if d else "") if len(s.outs) == 1 and d else
-                             "  depfile = %s.d" % esc_path(s.id))
-            if s.deps:
-                lines.append("  deps = " + s.deps)
-            if s.restat:
-                lines.append("  restat = 1")
-            if s.generator:
-                lines.append("  generator = 1")
-            if s.rsp:
-                lines.append("  rspfile = " + s.rsp[0])
-                # a literally empty value is rejected by the parser; an empty *evaluated* content is legal
-                lines.append("  rspfile_content = " + (s.rsp[1] if s.rsp[1] else "$rsp_nothing"))
+            lines += self._rule_lines(i, s, by_out)
         sp = self.spell
 
         def spath(x):
             return esc_path(sp.get(x, x))
         for i, s in enumerate(self.stmts):
-            l = "build " + " ".join(spath(o) for o in s.outs)
-            if s.iouts:
-                l += " | " + " ".join(spath(o) for o in s.iouts)
-            l += ": " + ("phony" if s.phony else "r%d" % i)
-            if s.ex:
-                l += " " + " ".join(spath(x) for x in s.ex)
-            if s.im:
-                l += " | " + " ".join(spath(x) for x in s.im)
-            if s.oo:
-                l += " || " + " ".join(spath(x) for x in s.oo)
-            if s.val:
-                l += " |@ " + " ".join(spath(x) for x in s.val)
-            lines.append(l)
-            if s.pool:
-                lines.append("  pool = " + s.pool)
-            if s.dyndep:
-                lines.append("  dyndep = " + s.dyndep)
+            if getattr(s, "scope", None):
+                continue
+            lines += self._build_lines(i, s)
+        for f in sorted(self.scoped_files()):
+            lines.append("subninja " + f)
         if self.defaults:
             lines.append("default " + " ".join(spath(x) for x in self.defaults))
         return "\n".join(lines) + "\n"
@@ -181,6 +214,7 @@ class Variant:
     def to_json(self):
         by_out = self.by_out()
         files = {"build.ninja": self.manifest()}
+        files.update(self.scoped_files())
         files.update(self.extra_files)
         return {
             "name": self.name,
@@ -188,7 +222,7 @@ class Variant:
             "defaults": self.defaults,
             "pools": self.pools,
             "stmts": [{
-                "outs": s.all_outs(), "phony": s.phony, "rule": "phony" if s.phony else "r%d" % i, "ex": s.ex, "im": s.im, "oo": s.oo, "val": s.val,
+                "outs": s.all_outs(), "phony": s.phony, "rule": "phony" if s.phony else self.rule_name(i), "ex": s.ex, "im": s.im, "oo": s.oo, "val": s.val,
                 "cmd": command_of(s, by_out), "pool": s.pool, "restat": s.restat, "generator": s.generator,
                 "deps": s.deps, "depfile": depfile_of(s), "dyndep": s.dyndep,
                 "rspfile": s.rsp[0] if s.rsp else "", "rspfile_content": s.rsp[1] if s.rsp else "",
@@ -262,14 +296,14 @@ def ninja_op(targets=(), j=1, k=1, faults=None, label=None, interrupt=False, fla
 
 
 def scenario(name, family, variants, files=None, ops=None, init=(), depth=2, tags=(), dev_bound=-1, dirs=(),
-             twin_variants=None):
+             twin_variants=None, builddir=""):
     files = dict(files or {})
     for x in sources_of(variants):
         files.setdefault(x, "%s-v0\n" % x)
     d = {
         "name": name, "family": family, "variants": [v.to_json() for v in variants], "files": files,
         "ops": ops or [], "init": list(init), "depth": depth, "tags": list(tags), "dev_bound": dev_bound,
-        "dirs": list(dirs),
+        "dirs": list(dirs), "builddir": builddir,
     }
     if twin_variants:
         d["twin_variants"] = [v.to_json() for v in twin_variants]
